@@ -226,17 +226,6 @@ theorem C17_readback_as_passed (t : Table) (env : Option String) (kw : RawKwargs
         rw [← ht, h2]
     · rw [towerStep_other ht e', h2]
 
-theorem not_fallback_of_kind {t : Table} (hw : WF t) {n : String} {o : Opt} (ho : findOpt t n = some o)
-    (hk : o.kind ≠ .excType) : t.fallbacks.lookup n = none := by
-  cases hl : t.fallbacks.lookup n with
-  | none => rfl
-  | some fb =>
-    obtain ⟨o', ho', hk'⟩ := hw.fallback_kind _ (lookup_mem_of_some hl)
-    simp only at ho'
-    rw [ho] at ho'
-    cases ho'
-    exact absurd hk' hk
-
 /-- adjustment 1 — `${BEARTYPE_IS_COLOR}`: unset, `is_color` is what was passed (the unpassed
     sentinel, or anything `==` to it, reading as `None`); set to a recognised string, it is that
     string's value whatever was passed. -/
